@@ -39,6 +39,7 @@ from .protocols import (
 )
 from .utils import (
     CustomPlanMetadata,
+    IllegalMessageSequence,
     Msg,
     MsgGenerator,
     ScalarOrIterableFloat,
@@ -1460,7 +1461,17 @@ def trigger_and_read(devices: Sequence[Readable], name: str = "primary") -> MsgG
         # Skip 'wait' if none of the devices implemented a trigger method.
         if not no_wait:
             yield from wait(group=grp)
-        yield from create(name)
+        try:
+            yield from create(name)
+        except IllegalMessageSequence:
+            # the 'create' itself was refused: there is no bundle of ours to close
+            raise
+        except Exception:
+            # Something else was delivered here, after the bundle had been opened (a stop or abort
+            # request, the failure of an earlier status): close the bundle, as for a failure during
+            # the readings, so that clean-up that takes readings of its own can still run.
+            yield from drop()
+            raise
 
         def read_plan():
             ret = {}  # collect and return readings to give plan access to them
